@@ -21,6 +21,19 @@ PLAN = {
         explanation="per configuration (p,n) all loops are unrolled over the operand width, so each configuration is "
                     "decided for all inputs; quick tier runs a subset of configurations, thorough all 113",
     ),
+    'C14': dict(
+        modules=['c14_measures'], level='proof',
+        trusted_base=COMMON_TRUST,
+        assumptions=[MATH_ARITH, "sqrt is an uninterpreted function: 'exact' means equal as real expressions; IEEE "
+                     "rounding of the sums is not verified", "area contracts are for finite coordinates"],
+    ),
+    'C15': dict(
+        modules=['c14_measures', 'c15_orient'], level='proof',
+        trusted_base=COMMON_TRUST + ["assumed numpy/numba contracts: np.nonzero / boolean-mask selection (increasing "
+                                     "positions of the true cells), fancy-index store, overlap-safe strided slice "
+                                     "assignment (right-hand side read before the store)"],
+        assumptions=[MATH_ARITH, "coordinates finite"],
+    ),
     'C13': dict(
         modules=['c13_bounds'], level='proof',
         trusted_base=COMMON_TRUST,
